@@ -194,3 +194,195 @@ for nm, spec in (("left", M.spec_bv_left), ("right", M.spec_bv_right)):
         c.samples = s_lr
         c.bound = "exhaustive: widths 1..6 (quick) / 1..8 (thorough), all values, width / rest in None, 0..w+1"
         con.cases.append(c)
+
+
+# ---- BitVector bit-level operators (C09 / C02): bounded --------------------------------
+from pyvc import sym as _sym
+from cohdl import Bit as _Bit
+from cohdl._core._bit import BitState as _BS
+
+_P2 = _sym.pow2
+
+
+def _known(*xs):
+    return all(x.fields.get("known", True) for x in xs)
+
+
+def spec_bv_eq(sx, a, b):
+    if b is Null:
+        return M.bits(a) == 0
+    if b is Full:
+        return M.bits(a) == 2 ** M.width(a) - 1
+    if not M.is_kind(b, BitVector) or M.is_kind(b, Unsigned) or M.is_kind(b, Signed):
+        sx.reject()
+    sx.require(M.width(a) == M.width(b))
+    return M.bits(a) == M.bits(b)
+
+
+def spec_bv_ne(sx, a, b):
+    return not spec_bv_eq(sx, a, b)
+
+
+def spec_bv_bool(sx, a):
+    return M.bits(a) != 0
+
+
+def _bitwise(pyop):
+    def spec(sx, a, b):
+        if not M.is_kind(b, BitVector):
+            return NotImplemented
+        # same class required (kind and width)
+        ka = Unsigned if M.is_kind(a, Unsigned) else Signed if M.is_kind(a, Signed) else BitVector
+        kb = Unsigned if M.is_kind(b, Unsigned) else Signed if M.is_kind(b, Signed) else BitVector
+        sx.require(ka is kb and M.width(a) == M.width(b))
+        return M.vec(ka, M.width(a), pyop(M.bits(a), M.bits(b)))
+
+    return spec
+
+
+def spec_bv_matmul(sx, a, b):
+    """a @ b: a forms the most significant bits"""
+    if isinstance(b, SObjT) and b.kind is _Bit:
+        return M.BV(M.width(a) + 1, M.bits(a) * 2 + (1 if b.fields["_val"] is _BS.HIGH else 0))
+    if not M.is_kind(b, BitVector):
+        return NotImplemented
+    return M.BV(M.width(a) + M.width(b), M.bits(a) * 2 ** M.width(b) + M.bits(b))
+
+
+def spec_bv_rmatmul(sx, a, b):
+    """b @ a with b a Bit: b becomes the most significant bit"""
+    if not (isinstance(b, SObjT) and b.kind is _Bit):
+        sx.reject()
+    return M.BV(M.width(a) + 1, (2 ** M.width(a) if b.fields["_val"] is _BS.HIGH else 0) + M.bits(a))
+
+
+from pyvc.values import SObj as SObjT  # noqa: E402
+
+
+def spec_bv_getitem_int(sx, a, i):
+    sx.require(0 <= i < M.width(a))
+    return M.BitView((M.bits(a) >> i) & 1)
+
+
+def spec_bv_getitem_slice(sx, a, hi, lo):
+    """a[hi:lo] (downto), hi >= lo"""
+    sx.domain(hi >= lo)  # lo > hi: RuntimeError('not implemented')
+    sx.domain(0 <= lo and hi < M.width(a))
+    return M.BV(hi - lo + 1, (M.bits(a) >> lo) & (2 ** (hi - lo + 1) - 1))
+
+
+def _bv_getitem_slice(a, hi, lo):
+    return a[hi:lo]
+
+
+def _vecpairs(rng, n, tier):
+    wm = bound(tier, 5, 6)
+    for a in all_vec("w1", "a", wm):
+        for b in all_vec("w2", "b", wm):
+            d = dict(a)
+            d.update(b)
+            yield d
+
+
+BVMOD = "cohdl._core._bit_vector:BitVector."
+for nm, spec in (("__eq__", spec_bv_eq), ("__ne__", spec_bv_ne)):
+    con = contract(BVMOD + nm, PROPS, status="assumed")
+    c = Case("bv", [BVShape("w1", "a"), BVShape("w2", "b")], spec)
+    c.samples = _vecpairs
+    c.bound = "exhaustive: all width pairs <= 5 (quick) / <= 6 (thorough), all values"
+    con.cases.append(c)
+    for k, shp in (("null", NULL), ("full", FULL)):
+        for VS in (BVShape,):
+            c = Case(k, [VS("w1", "a"), shp], spec)
+            c.samples = lambda rng, n, tier: all_vec("w1", "a", bound(tier, 9, 11))
+            c.bound = "exhaustive: widths 1..9 (quick) / 1..11 (thorough), all values"
+            con.cases.append(c)
+    for k, VS in (("unsigned", UShape), ("signed", SShape)):
+        c = Case(k, [BVShape("w1", "a"), VS("w2", "b")], spec)
+        c.samples = lambda rng, n, tier: _vecpairs(rng, n, "quick")
+        c.bound = "exhaustive: width pairs <= 5"
+        con.cases.append(c)
+
+con = contract(BVMOD + "__bool__", PROPS, status="assumed")
+for VS in (BVShape, UShape, SShape):
+    c = Case(VS.kind.__name__, [VS("w1", "a")], spec_bv_bool)
+    c.samples = lambda rng, n, tier: all_vec("w1", "a", bound(tier, 9, 11))
+    c.bound = "exhaustive: widths 1..9 / 1..11"
+    con.cases.append(c)
+
+import operator as _op
+
+for nm, pyop in (("__and__", _op.and_), ("__or__", _op.or_), ("__xor__", _op.xor)):
+    con = contract(BVMOD + nm, PROPS, status="assumed")
+    for n1, V1 in (("bv", BVShape), ("u", UShape), ("s", SShape)):
+        for n2, V2 in (("bv", BVShape), ("u", UShape), ("s", SShape)):
+            c = Case(f"{n1}-{n2}", [V1("w1", "a"), V2("w2", "b")], _bitwise(pyop))
+            c.samples = lambda rng, n, tier: _vecpairs(rng, n, "quick") if tier == "quick" else _vecpairs(rng, n, tier)
+            c.bound = "exhaustive: all width pairs <= 5 (quick) / <= 6 (thorough), all values"
+            con.cases.append(c)
+
+con = contract(BVMOD + "__matmul__", PROPS, status="assumed")
+for n1, V1 in (("bv", BVShape), ("u", UShape), ("s", SShape)):
+    for n2, V2 in (("bv", BVShape), ("u", UShape), ("s", SShape)):
+        c = Case(f"{n1}-{n2}", [V1("w1", "a"), V2("w2", "b")], spec_bv_matmul)
+        c.samples = _vecpairs
+        c.bound = "exhaustive: all width pairs <= 5 / <= 6, all values"
+        con.cases.append(c)
+    for st in (_BS.LOW, _BS.HIGH):
+        c = Case(f"{n1}-bit{st.name}", [V1("w1", "a"), M.BitShape(st)], spec_bv_matmul)
+        c.samples = lambda rng, n, tier: all_vec("w1", "a", bound(tier, 8, 10))
+        c.bound = "exhaustive widths 1..8 / 1..10"
+        con.cases.append(c)
+
+con = contract(BVMOD + "__rmatmul__", PROPS, status="assumed")
+for st in (_BS.LOW, _BS.HIGH):
+    c = Case(f"bit{st.name}", [BVShape("w1", "a"), M.BitShape(st)], spec_bv_rmatmul)
+    c.samples = lambda rng, n, tier: all_vec("w1", "a", bound(tier, 8, 10))
+    c.bound = "exhaustive widths 1..8 / 1..10"
+    con.cases.append(c)
+
+con = contract(BVMOD + "__getitem__", PROPS, status="assumed")
+for n1, V1 in (("bv", BVShape), ("u", UShape), ("s", SShape)):
+    c = Case(f"{n1}-int", [V1("w1", "a"), PyInt("i")], spec_bv_getitem_int)
+
+    def s_idx(rng, n, tier):
+        for a in all_vec("w1", "a", bound(tier, 7, 9)):
+            for i in range(-1, a["w1"] + 2):
+                d = dict(a)
+                d["i"] = i
+                yield d
+
+    c.samples = s_idx
+    c.bound = "exhaustive widths 1..7 / 1..9, index -1..w+1"
+    con.cases.append(c)
+
+con = contract("<BitVector slice a[hi:lo]>", PROPS, status="assumed", fn=_bv_getitem_slice)
+for n1, V1 in (("bv", BVShape), ("u", UShape), ("s", SShape)):
+    c = Case(f"{n1}", [V1("w1", "a"), PyInt("hi"), PyInt("lo")], spec_bv_getitem_slice)
+
+    def s_sl(rng, n, tier):
+        for a in all_vec("w1", "a", bound(tier, 6, 8)):
+            for hi in range(0, a["w1"]):
+                for lo in range(0, hi + 1):
+                    d = dict(a)
+                    d["hi"] = hi
+                    d["lo"] = lo
+                    yield d
+
+    c.samples = s_sl
+    c.bound = "exhaustive widths 1..6 / 1..8, all slices"
+    con.cases.append(c)
+
+
+# views: .unsigned / .signed / .bitvector keep the bits
+def _view(prop):
+    return lambda a: getattr(a, prop)
+
+
+for prop, K in (("unsigned", Unsigned), ("signed", Signed), ("bitvector", BitVector)):
+    con = contract(f"<BitVector.{prop} view>", PROPS, status="assumed", fn=_view(prop))
+    for n1, V1 in (("bv", BVShape), ("u", UShape), ("s", SShape)):
+        c = Case(n1, [V1("w1", "a")], lambda sx, a, K=K: M.vec(K, M.width(a), M.bits(a)))
+        c.samples = lambda rng, n, tier: all_vec("w1", "a", bound(tier, 8, 10))
+        c.bound = "exhaustive widths 1..8 / 1..10"
+        con.cases.append(c)
